@@ -23,10 +23,12 @@ import (
 // traffic drains within a step budget.
 
 func init() {
-	register(&core.Profile{Name: "c02-dup-replay-clean", Property: "C02", Weight: 3, Run: func(c *core.Ctx) { runC02(c, false) },
+	register(&core.Profile{Name: "c02-dup-replay-clean", Property: "C02", Weight: 3, Run: func(c *core.Ctx) { runC02(c, false, false) },
 		Doc: "2-3 chains, several packets per channel, cleans; transport duplicates, reorders and replays every logged receive (right after delivery, after the ack, after cleans on destination and relay, around the clean point); fault-free tail with completeness check"})
-	register(&core.Profile{Name: "c02-dup-replay-clean-crash", Property: "C02", Weight: 1, Fault: true, Run: func(c *core.Ctx) { runC02(c, true) },
+	register(&core.Profile{Name: "c02-dup-replay-clean-crash", Property: "C02", Weight: 1, Fault: true, Run: func(c *core.Ctx) { runC02(c, true, false) },
 		Doc: "same with crash/restart of chains (all three crash points) between steps"})
+	register(&core.Profile{Name: "c02-long-channel", Property: "C02", Weight: 2, Run: func(c *core.Ctx) { runC02(c, false, true) },
+		Doc: "same, but most sends go over one (source,destination) pair so that it carries 10-40 packets (two-digit sequences); cleans over short and long ranges, then replays of every logged receive above and below the clean point"})
 }
 
 // onceOracle checks (a) and (b) after a relayer tx.
@@ -89,7 +91,7 @@ func honestRecvMustSucceed(e *scen.Engine, it *scen.Item) (bool, string) {
 	return true, ""
 }
 
-func runC02(c *core.Ctx, crashes bool) {
+func runC02(c *core.Ctx, crashes, deep bool) {
 	ch := c.Ch
 	nChains := ch.Range(2, 3)
 	w, e := buildTraffic(c, nChains, world.DefaultClientParams())
@@ -104,6 +106,9 @@ func runC02(c *core.Ctx, crashes bool) {
 		}
 	}
 	e.SeedTokens(uni, 3)
+	if deep {
+		deepSetup(e)
+	}
 	replays, replaysAfterClean := 0, 0
 	e.OnRelayTx = func(s *scen.Sent, n *world.Node, r *world.TxResult, before map[string]string) {
 		onceOracle(c, e, s, n, r)
@@ -119,11 +124,22 @@ func runC02(c *core.Ctx, crashes bool) {
 		c.Step("c02")
 		switch ch.Pick([]int{22, 22, 24, 10, 16, 6}) {
 		case 0:
+			if deep && ch.Bool(3, 4) {
+				deepBurst(c, e)
+				continue
+			}
 			e.RandomUserOp(w.Nodes[ch.Int(len(w.Nodes))], uni)
 		case 1: // honest delivery, possibly duplicated by the transport
 			it := pickPending(c, e)
 			if it == nil {
 				continue
+			}
+			if deep { // keep up with the bursts
+				for j, k := 0, ch.Int(3); j < k; j++ {
+					if it2 := pickPending(c, e); it2 != nil {
+						e.Deliver(it2, relayer())
+					}
+				}
 			}
 			s := e.Deliver(it, relayer())
 			if s != nil && ch.Bool(1, 3) {
@@ -159,6 +175,10 @@ func runC02(c *core.Ctx, crashes bool) {
 			e.Submit(d)
 		case 3: // user clean on a source chain
 			n := w.Nodes[ch.Int(len(w.Nodes))]
+			if ch.Bool(1, 6) {
+				foreignClean(c, e, n)
+				continue
+			}
 			userClean(c, e, n)
 		case 4:
 			// transport delay / reordering: a message built now (proof of now) is held back and
